@@ -448,6 +448,10 @@ func (ex *Exec) unwindStep(st *State) bool {
 	// no deferred call left and still panicking: pop the frame
 	g.Frames = g.Frames[:len(g.Frames)-1]
 	g.UnwindLevel = len(g.Frames)
+	if len(g.Frames) == 0 && g.Goexit {
+		g.Paniced, g.Goexit = false, false
+		return true // the goroutine has ended; the scheduler picks another one
+	}
 	if len(g.Frames) == 0 {
 		g.Paniced = false
 		ex.reportAt(st, "panic", g.PanicMsg, nil, g.PanicWhere)
